@@ -167,12 +167,16 @@ func genFrame(r *hx.Rand, max, _ int) codec.Frame {
 			cs = append(cs, combos[r.Intn(len(combos))])
 		}
 	}
-	fr := make(codec.Frame, len(cs))
-	for i, c := range cs {
+	fr := make(codec.Frame, 0, len(cs))
+	total := 0
+	for _, c := range cs {
 		if c.flen > 64*avail { // keep the packet count per frame moderate
 			c = nearest(r, 64*avail)
 		}
-		fr[i] = mkFrame(r, c)
+		if total += c.flen; total > 12000 && len(fr) > 0 { // keep case lines moderate
+			break
+		}
+		fr = append(fr, mkFrame(r, c))
 	}
 	return fr
 }
